@@ -23,16 +23,17 @@ type replay struct {
 	Choices  map[string]int    `json:"choices"`
 	Known    []string          `json:"known"`
 	Thorough bool              `json:"thorough"`
+	Repeat   int               `json:"repeat"`
 }
 
 type result struct {
-	File     string   `json:"file"`
-	Harness  string   `json:"harness"`
-	Failed   []string `json:"failed"`
-	Panic    string   `json:"panic"`
-	Reached  []string `json:"reached"`
+	File     string            `json:"file"`
+	Harness  string            `json:"harness"`
+	Failed   []string          `json:"failed"`
+	Panic    string            `json:"panic"`
+	Reached  []string          `json:"reached"`
 	Observed map[string]string `json:"observed"`
-	Asserts  int      `json:"asserts"`
+	Asserts  int               `json:"asserts"`
 }
 
 var (
@@ -125,9 +126,10 @@ func Assert(id string, c bool) {
 		panic(assertFailed{id})
 	}
 }
+
 // Hunt is Assert for bug-hunting obligations (a solver "unknown" does not make the check inconclusive).
 func Hunt(id string, c bool) { Assert(id, c) }
-func Reach(label string) { res.Reached = append(res.Reached, label) }
+func Reach(label string)     { res.Reached = append(res.Reached, label) }
 func Known(id string) bool {
 	for _, k := range cur.Known {
 		if k == id {
@@ -137,6 +139,10 @@ func Known(id string) bool {
 	return false
 }
 func Symbolic() bool { return false }
+
+// NondetMapOrder: under the engine every range over a small Go map forks over all iteration orders while on.
+// Natively Go randomises map iteration itself; RunReplay repeats such a replay (field "repeat") until it fails.
+func NondetMapOrder(on bool) {}
 
 // SetEnv / GetEnv: environment answers chosen by the harness (e.g. whether the node's tx index contains the tx).
 var env = map[string]bool{}
@@ -196,23 +202,31 @@ func RunReplay(t *testing.T, harnesses map[string]func()) {
 		if !ok {
 			t.Fatalf("zzverif: unknown harness %q", cur.Harness)
 		}
-		func() {
-			defer func() {
-				if r := recover(); r != nil {
-					switch r := r.(type) {
-					case assertFailed:
-					case assumeFailed:
-						res.Panic = "ASSUME-FAILED"
-					default:
-						res.Panic = fmt.Sprintf("%v", r)
-						if len(res.Panic) > 600 {
-							res.Panic = res.Panic[:600]
+		reps := cur.Repeat
+		if reps < 1 {
+			reps = 1
+		}
+		for rep := 0; rep < reps && len(res.Failed) == 0 && (res.Panic == "" || res.Panic == "ASSUME-FAILED"); rep++ {
+			names = map[string]int{}
+			res = result{File: f, Harness: cur.Harness, Observed: map[string]string{}}
+			func() {
+				defer func() {
+					if r := recover(); r != nil {
+						switch r := r.(type) {
+						case assertFailed:
+						case assumeFailed:
+							res.Panic = "ASSUME-FAILED"
+						default:
+							res.Panic = fmt.Sprintf("%v", r)
+							if len(res.Panic) > 600 {
+								res.Panic = res.Panic[:600]
+							}
 						}
 					}
-				}
+				}()
+				fn()
 			}()
-			fn()
-		}()
+		}
 		out, _ := json.Marshal(res)
 		fmt.Printf("VERIF-RESULT: %s\n", out)
 	}
